@@ -1,7 +1,8 @@
 (* Property theorems for C03 -- statements only; proofs are `exact` of lemmas. *)
-From Coq Require Import ZArith List Bool Lia.
+From Coq Require Import ZArith List Bool Lia QArith.
 From GD Require Import C04.Bytes C03.Write C03.WriteProofs C03.Sie C03.SieProofs.
 Import ListNotations.
+Local Open Scope nat_scope.
 
 (* the field ends at the highest sample written *)
 Theorem field_ends_at_highest_sample_written : forall (A : Type) (zero : A) a p d,
@@ -43,9 +44,15 @@ Theorem oop_read_returns_field : forall chunk, 1 <= chunk -> forall st n, oop_ok
 Proof. exact oop_get_correct. Qed.
 
 (* ---- SIE: the cursor machine of sie.c ---- *)
-Definition sie_record_ends_increase_statement : Prop := sie_increasing_statement.
-Theorem sie_record_ends_increase_refuted : ~ sie_increasing_statement.
-Proof. exact sie_increasing_refuted. Qed.
+(* the in-core compression loop of _GD_SampIndWrite, for every run structure of the data and of the
+   record being extended: the new records expand to what was there up to p+i-1, followed by the data *)
+Theorem sie_incore_compression_correct : forall prev p data i e cur rest,
+  (lend prev (rev rest) <= p + i - 1)%Z ->
+  exists e' cur' rest',
+    compress_loop p i data ((e, cur) :: rest) = (e', cur') :: rest' /\
+    sie_expand_from prev (rev ((p + i + Z.of_nat (length data) - 1, cur') :: rest')%Z)
+    = sie_expand_from prev (rev ((p + i - 1, cur) :: rest)%Z) ++ data.
+Proof. exact compress_loop_spec. Qed.
 
 (* ---- derived writes ---- *)
 (* BIT/SBIT read-modify-write, all 64-bit words: bits of the field take the value, all others are kept *)
@@ -74,6 +81,19 @@ Theorem mplex_write_changes_exactly_the_selected_samples : forall (A : Type) (df
   nth k (mplex_spec_from i spf1 spf2 cnt val old new) dflt =
   if (nth ((i + k) * spf2 / spf1) cnt (val + 1) =? val)%Z then nth k new dflt else nth k old dflt.
 Proof. exact @mplex_spec_nth_from. Qed.
+
+(* first-order LINCOM / POLYNOM, RECIP, monotonic LINTERP: the written value is the one the read formula maps back *)
+Theorem lincom_write_inverts_read : forall m b y : Q, ~ (m == 0)%Q -> (lincom_read m b (lincom_out m b y) == y)%Q.
+Proof. exact lincom_out_inverts. Qed.
+Theorem lincom_write_is_the_only_preimage : forall m b x : Q, ~ (m == 0)%Q -> (lincom_out m b (lincom_read m b x) == x)%Q.
+Proof. exact lincom_out_unique. Qed.
+Theorem recip_write_inverts_read : forall a y : Q, ~ (a == 0)%Q -> ~ (y == 0)%Q -> (recip_read a (recip_out a y) == y)%Q.
+Proof. exact recip_out_inverts. Qed.
+Theorem linterp_reverse_table_is_inverse_relation : forall lut x y, In (x, y) lut <-> In (y, x) (reverse_table lut).
+Proof. exact reverse_table_knots. Qed.
+Theorem linterp_segment_inverse : forall x0 y0 x1 y1 x : Q, ~ (x1 - x0 == 0)%Q -> ~ (y1 - y0 == 0)%Q ->
+  (seg_interp y0 x0 y1 x1 (seg_interp x0 y0 x1 y1 x) == x)%Q.
+Proof. exact seg_interp_inverse. Qed.
 
 (* hypotheses are satisfiable *)
 Example oop_ok_inhabited : oop_ok (mkOop [[1%Z]; [2%Z]] true true 1 (Some [[7%Z]])).
